@@ -594,6 +594,8 @@ class Interp:
         if tag and tag[0] == "try":
             _, recv, mode, evi = tag
             if value:
+                if st.locks.get(recv) in ("W", "R"):
+                    self.problem(st, "DOUBLE_ACQ", st.events[evi], have=st.locks.get(recv))
                 st.locks[recv] = mode
             st.events[evi] = dict(st.events[evi], outcome=value)
         elif tag and tag[0] in ("flag", "panicking", "cmp", "prim", "user"):
